@@ -9,9 +9,10 @@ for s in "$@"; do
   cd $WT && git checkout -q --detach $(git -C /repo rev-parse HEAD) && git checkout -q -- . && git clean -fdq
   git apply $d/patch.diff || { echo "$s: PATCH DOES NOT APPLY"; continue; }
   cp $d/demo_mutant.rs tests/demo_mutant_$$.rs
-  cargo test --offline --workspace --no-fail-fast 2>&1 | grep -E "^test .* (FAILED|failed)$|^test .*\.\.\. FAILED" | sed 's/ \.\.\. FAILED//' | sort > /tmp/wt/verify_with.txt
+  FEAT=""; [ -f $d/features ] && FEAT="--features $(cat $d/features)"
+  cargo test --offline --workspace --no-fail-fast $FEAT 2>&1 | grep -E "^test .* (FAILED|failed)$|^test .*\.\.\. FAILED" | sed 's/ \.\.\. FAILED//' | sort > /tmp/wt/verify_with.txt
   git checkout -q -- . 
-  cargo test --offline --test demo_mutant_$$ 2>&1 | grep -E "^test result" > /tmp/wt/verify_without.txt
+  cargo test --offline $FEAT --test demo_mutant_$$ 2>&1 | grep -E "^test result" > /tmp/wt/verify_without.txt
   other=$(grep -v -E "test_get_weighted_triangles_and_degrees_1|test_clustering_directed_weighted|test_clustering_undirected_weighted|src/lib.rs - \(line 232\)" /tmp/wt/verify_with.txt | grep -v "^test tests::\|demo" | wc -l)
   demofail=$(grep -c "" /tmp/wt/verify_with.txt)
   echo "$s: failing-with-change=$(cat /tmp/wt/verify_with.txt | wc -l) (non-baseline, non-demo: $other) | without: $(cat /tmp/wt/verify_without.txt)"
